@@ -14,6 +14,8 @@
 """This module contains a compiler that merges Gaussian operations into their symplectic forms,
 in a Gaussian and non-Gaussian circuit."""
 
+import networkx as nx
+
 import strawberryfields.program_utils as pu
 
 from .compiler import Compiler
@@ -332,10 +334,36 @@ class GaussianMerge(Compiler):
                         merged_gaussian_ops.append(predecessor)
 
         merged_gaussian_ops = self.remove_invalid_operations(op, merged_gaussian_ops)
+        merged_gaussian_ops = self.remove_non_convex_operations(op, merged_gaussian_ops)
 
         if self.is_redundant_merge(op, merged_gaussian_ops):
             return []
         return merged_gaussian_ops
+
+    def remove_non_convex_operations(self, op, merged_gaussian_ops):
+        """
+        A group of operations can only be replaced by a single operation if no dependency
+        path between two of its members passes through an operation outside of the group;
+        otherwise the merge would reorder non-commuting operations (or create a cycle).
+        Members violating this are dropped until the group is closed.
+        """
+        group = [op] + merged_gaussian_ops
+        changed = True
+        while changed:
+            changed = False
+            for member in group[1:]:
+                ancestors = nx.ancestors(self.DAG, member)
+                for other in group:
+                    if other is member:
+                        continue
+                    between = nx.descendants(self.DAG, other) & ancestors
+                    if any(node not in group for node in between):
+                        group = [g for g in group if g is not member]
+                        changed = True
+                        break
+                if changed:
+                    break
+        return group[1:]
 
     def is_redundant_merge(self, op, merged_gaussian_ops):
         """
